@@ -560,7 +560,7 @@ func litestream.(*Replica).calcPos(r, ctx) (pos, err)
 
 func litestream.(*Replica).syncOnce(r, ctx, maxSyncLTXFiles) (result, err)
   requires r != nil && r.db != nil && !c05_uploaded && r.pos.TXID < 9223372036854775807 && pos_verifyErr == nil
-  modifies $alloc, it_idx, l0_has, file_closed, c05_writeErr, c05_upErr, c05_dpos, c05_uploaded, c05_lockErr, r.pos, all(litestream.DB), pos_verifyErr, all(ltx.Decoder), all(ltx.Header), all(ltx.Trailer), all(litestream.LTXError)
+  modifies $alloc, it_idx, l0_has, file_closed, c05_writeErr, c05_upErr, c05_dpos, c05_uploaded, c05_lockErr, r.pos, all(litestream.DB), pos_verifyErr, all(ltx.Decoder), all(ltx.Header), all(ltx.Trailer), all(litestream.LTXError), all(ltx.PageHeader), all(ltx.PageIndexElem), key("Elem_string"), key("Elem_uint8")
   at litestream.(*Replica).lockSync#1 set c05_lockErr = $result0
   at litestream.(*DB).Pos#1 set c05_dpos = $result0.TXID
   at litestream.(*Replica).uploadLTXFile#all assert [C05.order] $arg1 == 0 && $arg2 == r.pos.TXID + 1 && $arg3 == $arg2 && $arg2 <= c05_dpos
@@ -665,7 +665,7 @@ func litestream.(*DB).detectFullCheckpoint(db, ctx, knownSalts) (detected, err)
 ghost pos_verifyErr Int
 func litestream.(*DB).Pos(db) (pos, err)
   requires db != nil && pos_verifyErr == nil
-  modifies $alloc, db.pos, file_closed, pos_verifyErr, all(ltx.Decoder), all(ltx.Header), all(ltx.Trailer), all(litestream.LTXError)
+  modifies $alloc, db.pos, file_closed, pos_verifyErr, all(ltx.Decoder), all(ltx.Header), all(ltx.Trailer), all(litestream.LTXError), all(ltx.PageHeader), all(ltx.PageIndexElem), key("Elem_string"), key("Elem_uint8")
   assumes db.pos.value != nil ==> db.pos.value.TXID < 9223372036854775807     // cached positions come from file headers
   at ltx.(*Decoder).Verify#1 set pos_verifyErr = $result0
   ensures [C03.pos-verified] old(db.pos.value) == nil && pos_verifyErr != nil ==> err != nil
